@@ -5,14 +5,16 @@ PROP = "C17"
 DRIVER = "drv_signals"
 LEAN_MODULES = ["MesaModel.Props.C17"]
 THEOREMS = ["Mesa.Computed." + t for t in (
-    "C17_no_stale_partial", "C17_define_fresh", "C17_clean_is_fresh", "C17_remembers_exactly_last_reads",
+    "C17_no_stale_partial", "C17_define_fresh", "C17_raise_is_fresh", "C17_den_deterministic", "C17_clean_is_fresh",
+    "C17_failed_is_dirty", "C17_remembers_exactly_last_reads",
     "C17_minimal_partial", "C17_cached_read_is_free", "C17_cycle_rejected", "C17_cycle_never_returns",
     "C17_cycle_rejected_direct", "C17_cycle_record_per_evaluation", "C17_no_stale_refuted_with_reading_handler")]
 COUNTS = {"quick": 1500, "thorough": 150000}
 EXHAUSTIVE = {"thorough": True}
 TRUSTED = [
-    "a Computed's function is a read tree (what it returns depends only on the Observables / Computables it reads, in the "
-    "order it reads them); arbitrary Python side effects of such functions are not modelled (only assignments to Observables)",
+    "a Computed's function is a read tree (what it returns - or that it raises - depends only on the Observables / Computables "
+    "it reads, in the order it reads them); arbitrary Python side effects of such functions, and functions that catch the "
+    "exception of a Computable they read, are not modelled (only assignments to Observables)",
     "CPython dict / WeakKeyDictionary iteration order (insertion order) for the remembered parents",
     "CPython weakref: user handlers die when the harness drops its last strong reference; owners and Computeds stay alive "
     "for the whole scenario (garbage collection of owners is not modelled)",
@@ -24,9 +26,9 @@ ASSUMPTIONS = [
 ]
 RULE = ("random dependency structures: 1-2 owners, 2-4 Observables with values {0,1,2}, 1-3 Computables whose functions are "
         "random read trees of depth <= 3 that branch on what they read (so the set of Observables read switches), read earlier "
-        "Computables (chains) and - in 1/10 of the scenarios - assign Observables; 8-30 ops from assign (incl. restoring "
+        "Computables (chains), raise on some branches (2/12 of the scenarios) and - in 1/12 of the scenarios - assign Observables; 8-30 ops (going on after an operation raised) from assign (incl. restoring "
         "values), read, late definitions, user handlers observing Observables and Computables (in 1/10 of the scenarios the "
-        "handlers read Computables while notified); 4% directed cycle scenarios: a function reads x, then in any order assigns "
+        "handlers read Computables while notified); 4% directed raise scenarios (reads after a failed evaluation, through a chain, two owners with the read order of finding G12); 4% directed cycle scenarios: a function reads x, then in any order assigns "
         "other Observables, reads a (chain of) Computable(s) that recompute at that moment, reads; then assigns x - and "
         "assignments that are no cycle although an earlier evaluation read the key; non-trivial = at least two evaluations after the definitions and at "
         "least one read served from the cache")
